@@ -483,6 +483,27 @@ func d1Lemmas(p *core.Program, r *core.Report) {
 			}
 		}
 	}
+	// newDetectionStateFromMonotonicNumbers: the candidates are visited in map order; this is only
+	// tolerable if evaluating one candidate cannot change what the next one sees.
+	if ev := mustFunc(p, r, "D1-lemma", "(mod/internal/pagination/info.ListLinkInfo).Evaluate"); ev != nil {
+		a := runPEA(p)
+		fw := a.FieldWrites(ev)
+		var fs []string
+		for f := range fw {
+			// PageNumbersState / PageParamInfo / LinearFormula objects are created during the
+			// evaluation itself; the shared inputs are the PageInfo and PageLinkInfo records
+			if strings.Contains(f, "info.PageInfo.") || strings.Contains(f, "info.PageLinkInfo.") || strings.Contains(f, "PageInfoGroup") {
+				fs = append(fs, f)
+			}
+		}
+		sort.Strings(fs)
+		var mods []string
+		for _, ef := range a.TrackedMods(ev) {
+			mods = append(mods, ef.Kind+" "+ef.Field)
+		}
+		r.Add("D1-lemma", "evaluating a pagination candidate does not modify the shared number list (or anything else)", p.Pos(ev.Pos()), len(fs) == 0 && len(mods) == 0,
+			fmt.Sprintf("fields of pre-existing objects written by Evaluate and its callees: %v; other effects: %v", fs, mods))
+	}
 	// RelevantTagNames: the only consumer ranges over the result and inserts into a set
 	if fn := mustFunc(p, r, "D1-lemma", "mod/internal/converter.NewDomConverter"); fn != nil {
 		calls := core.Calls(fn, func(ci ssa.CallInstruction) bool { return core.IsCallTo(ci, "iface:RelevantTagNames") })
